@@ -158,7 +158,7 @@ def run_history(hist, api):
                     if v is not None:
                         return v
                 return None
-            v = asyncio.run(main())
+            v = runner.run_async(main())
             if v is not None:
                 return v, out
         if any(observed_in_connect):
